@@ -398,7 +398,7 @@ def levels(rep, mod, f):
         e = [norm(s).replace(' ', '') for s in iff[0].orelse]
         lens = [p for p in parts if isinstance(p, ast.Compare) and 'len(' in norm(p)]
         ok_src = len(src) == 1 or bool(lens)   # len() form is reported by C17.count
-        ok = ok_src and sorted(a[0] for a in atoms) == ['dff', 'latch'] and b == ['l=0'] \
+        ok = ok_src and sorted(a[0] for a in atoms) == ['dff', 'latch'] and not any(a[2] for a in atoms) and all(a[1] == n for a in atoms) and b == ['l=0'] \
             and e == [f'l=level[[l.driver.indexforlin{n}.insiflisnotNone]].max()+1']
     rep.ob('C17.level', q, ok)
     if not ok:
